@@ -151,7 +151,7 @@ func genC20(r *vh.Runner) {
 	r.Case("exh/complete", nil, func(c *vh.Case) { r.Count("exhaustive_spaces_completed", int64(len(spaces))) })
 
 	// random long pairs incl. non-ASCII bytes, derived inputs that should match
-	nRand := r.Pick(40, 60000)
+	nRand := r.Pick(40, 300000)
 	for b := 0; b < nRand; b++ {
 		r.Case(fmt.Sprintf("rand/%d", b), map[string]any{"batch": b}, func(c *vh.Case) {
 			rng := vh.NewRand(r.Seed, "glob-rand", b)
@@ -175,7 +175,7 @@ func genC20(r *vh.Runner) {
 	}
 
 	// MatchHost and VirtualHosts.Match on block lists
-	nCfg := r.Pick(60, 60000)
+	nCfg := r.Pick(60, 300000)
 	for b := 0; b < nCfg; b++ {
 		r.Case(fmt.Sprintf("cfg/%d", b), map[string]any{"batch": b}, func(c *vh.Case) {
 			rng := vh.NewRand(r.Seed, "glob-cfg", b)
